@@ -139,15 +139,17 @@ func ProcessEpochRewardsAndPenalties(ctx context.Context, spec *common.Spec, epc
 		return err
 	}
 
-	valCount := uint64(len(attesterData.Flats))
-	sum := common.NewDeltas(valCount)
-	sum.Add(rewAndPenalties.Source)
-	sum.Add(rewAndPenalties.Target)
-	sum.Add(rewAndPenalties.Head)
-	sum.Add(rewAndPenalties.Inactivity)
-	balances, err := common.ApplyDeltas(state, sum)
-	if err != nil {
-		return err
+	// The delta sets are applied one after the other, not summed:
+	// a penalty clips the balance at 0 before the rewards of the next set are added.
+	for _, deltas := range []*common.Deltas{
+		rewAndPenalties.Source, rewAndPenalties.Target, rewAndPenalties.Head, rewAndPenalties.Inactivity} {
+		balances, err := common.ApplyDeltas(state, deltas)
+		if err != nil {
+			return err
+		}
+		if err := state.SetBalances(balances); err != nil {
+			return err
+		}
 	}
-	return state.SetBalances(balances)
+	return nil
 }
